@@ -44,6 +44,14 @@ use verif_harness::{
     trace::{take, tr},
 };
 
+/// Does shipping BOTH halves of a locally created channel to the peer give a working channel?  Probed once at
+/// start-up (on the pinned tree it does not: interlock defect of rch::bin; the data port is dead from the start).
+static BOTH_HALVES_SUPPORTED: std::sync::atomic::AtomicBool = std::sync::atomic::AtomicBool::new(false);
+
+fn both_supported() -> bool {
+    BOTH_HALVES_SUPPORTED.load(std::sync::atomic::Ordering::Relaxed)
+}
+
 type IoTx = rch::io::Sender;
 type IoRx = rch::io::Receiver;
 
@@ -93,12 +101,14 @@ struct Case {
     buf: [u32; 2],
     settle: bool,
     sched: u64,
+    /// probe only (never generated): keep using a half after an error that left a completed internal future in place
+    poison: bool,
     ops: Vec<Op>,
 }
 
 fn case_text(c: &Case) -> Vec<String> {
     let mut v = vec![format!(
-        "case {} mode={} topo={} via={} chunkA={} bufA={} chunkB={} bufB={} settle={} sched={}",
+        "case {} mode={} topo={} via={} chunkA={} bufA={} chunkB={} bufB={} settle={} sched={}{}",
         c.name,
         c.mode.map(|n| n.to_string()).unwrap_or("u".into()),
         c.topo,
@@ -108,7 +118,8 @@ fn case_text(c: &Case) -> Vec<String> {
         c.chunk[1],
         c.buf[1],
         c.settle as u8,
-        c.sched
+        c.sched,
+        if c.poison { " poison=1" } else { "" }
     )];
     for op in &c.ops {
         v.push(match op {
@@ -157,6 +168,7 @@ fn parse_cases(text: &str) -> Vec<Case> {
                     buf: [g("bufA", "32").parse().unwrap(), g("bufB", "32").parse().unwrap()],
                     settle: g("settle", "1") == "1",
                     sched: g("sched", "0").parse().unwrap(),
+                    poison: g("poison", "0") == "1",
                     ops: Vec::new(),
                 });
             }
@@ -295,11 +307,11 @@ async fn do_write(tx: &mut IoTx, data: &[u8], n: &mut u64, sh: &Sh, cancellable:
     out
 }
 
-async fn sender_actor(mut tx: IoTx, mut cmds: mpsc::UnboundedReceiver<SCmd>, sh: Sh) {
+async fn sender_actor(mut tx: IoTx, mut cmds: mpsc::UnboundedReceiver<SCmd>, sh: Sh, poison: bool) {
     let mut n = 0u64;
     let mut usable = true;
     while let Some(cmd) = cmds.recv().await {
-        if !usable && !matches!(cmd, SCmd::Drop) {
+        if !usable && !poison && !matches!(cmd, SCmd::Drop) {
             if let SCmd::Swap(_, _) = cmd {
                 // (dropping the handles makes the interpreter skip the move)
             }
@@ -430,11 +442,11 @@ async fn do_read(rx: &mut IoRx, size: usize, n: &mut u64, sh: &Sh, cancellable: 
     (res.ok(), usable)
 }
 
-async fn receiver_actor(mut rx: IoRx, mut cmds: mpsc::UnboundedReceiver<RCmd>, sh: Sh) {
+async fn receiver_actor(mut rx: IoRx, mut cmds: mpsc::UnboundedReceiver<RCmd>, sh: Sh, poison: bool) {
     let mut n = 0u64;
     let mut usable = true;
     while let Some(cmd) = cmds.recv().await {
-        if !usable && !matches!(cmd, RCmd::Drop) {
+        if !usable && !poison && !matches!(cmd, RCmd::Drop) {
             sh.lock().unwrap().busy[1] = false;
             continue;
         }
@@ -599,7 +611,7 @@ async fn run_case(c: Case) {
         c.mode.map(|n| n.to_string()).unwrap_or("u".into()),
         c.chunk[1 - sender_side],
         (c.settle && !has_cut) as u8,
-        c.topo.starts_with("both") as u8,
+        (c.topo.starts_with("both") && !both_supported()) as u8,
         c.topo,
         c.via
     ));
@@ -607,7 +619,7 @@ async fn run_case(c: Case) {
     let sh: Sh = Arc::new(Mutex::new(Shared::default()));
     let (s_tx, s_rx) = mpsc::unbounded_channel();
     let (r_tx, r_rx) = mpsc::unbounded_channel();
-    let actors = [tokio::spawn(sender_actor(tx, s_rx, sh.clone())), tokio::spawn(receiver_actor(rx, r_rx, sh.clone()))];
+    let actors = [tokio::spawn(sender_actor(tx, s_rx, sh.clone(), c.poison)), tokio::spawn(receiver_actor(rx, r_rx, sh.clone(), c.poison))];
 
     enum Cmd {
         S(SCmd),
@@ -663,6 +675,9 @@ async fn run_case(c: Case) {
                                 };
                                 match try_ship(Msg::Tx(obj), ftx, trx).await {
                                     Some(Msg::Tx(t)) => {
+                                        // let the port of the received sender get connected before anything else
+                                        // happens (as after the initial placement)
+                                        settle().await;
                                         ends.sender_side = to;
                                         let _ = back_tx.send(Some(t));
                                     }
@@ -909,7 +924,8 @@ fn gen_case(r: &mut Rng, i: u64, stats: &mut BTreeMap<String, u64>) -> Case {
     // the sender object is shipped to the other endpoint in mid-stream (possibly with a chunk in flight)
     // (only a sender that was itself received from the peer: on the pinned tree the original local sender
     // cannot follow an already shipped receiver - interlock defect of rch::bin, same cause as the `both` placements)
-    let moved = (topo == "txremote" || topo == "bouncetx") && r.chance(1, 3);
+    let moved = (topo == "txremote" || topo == "bouncetx" || (both_supported() && !topo.starts_with("both")))
+        && r.chance(1, 3);
     if moved {
         let at = r.below(sops.len() as u64 + 1) as usize;
         sops.insert(at, Op::MV);
@@ -1046,8 +1062,31 @@ fn gen_case(r: &mut Rng, i: u64, stats: &mut BTreeMap<String, u64>) -> Case {
         buf,
         settle,
         sched: r.next_u64() % 1_000_000,
+        poison: false,
         ops,
     }
+}
+
+/// One tiny round trip through a channel whose two halves were shipped to the peer in one message.
+fn probe_both_halves() -> bool {
+    let c = Case {
+        name: "probe".into(),
+        mode: None,
+        topo: "both".into(),
+        via: "base".into(),
+        chunk: [32, 32],
+        buf: [64, 64],
+        settle: true,
+        sched: 0,
+        poison: false,
+        ops: vec![Op::WA(vec![0x5a]), Op::F, Op::R(1)],
+    };
+    let res = std::panic::catch_unwind(move || {
+        let rt = tokio::runtime::Builder::new_current_thread().enable_time().start_paused(true).build().unwrap();
+        rt.block_on(run_case(c));
+    });
+    let lines = take();
+    res.is_ok() && lines.iter().any(|l| l.starts_with("ret r ") && l.ends_with(" ok 5a"))
 }
 
 fn main() {
@@ -1056,6 +1095,9 @@ fn main() {
         let msg = info.to_string().replace('\n', " ");
         tr(format!("panic {msg}"));
     }));
+    let supported = probe_both_halves();
+    BOTH_HALVES_SUPPORTED.store(supported, std::sync::atomic::Ordering::Relaxed);
+    eprintln!("STAT both_halves_supported {}", supported as u8);
     let out = std::io::stdout();
     let mut out = std::io::BufWriter::new(out.lock());
     let mut stats: BTreeMap<String, u64> = BTreeMap::new();
